@@ -64,3 +64,44 @@ Definition pl_yield (eel deto : list R) (p young nu H s0 dp : R) : R :=
 Definition cr_residual (eel deto : list R) (young nu A E dt theta dp : R) : R :=
   dp - dt * (A * Rpower (iso_seq eel deto young nu theta dp) E).
 Definition sublist (a n : nat) (l : list R) := firstn n (skipn a l).
+
+(* Orthotropic linear elasticity (C41OrthoElasticity): compliance of the normal components in the material axes (1,2,3),
+   S_aa = 1/E_a, S_12 = -nu12/E1, S_13 = -nu13/E1, S_23 = -nu23/E2 (symmetric), shear modulus of a pair of axes.
+   Generalised Hooke law in the directions of a modelling hypothesis whose i-th direction is the material axis perm i:
+     eps_i = sum_j S(perm i, perm j) sig_j  (i < 3),   sig_xy = 2 G(perm 0, perm 1) eps_xy, ... *)
+Definition ortho_compliance (E1 E2 E3 n12 n23 n13 : R) (a b : nat) : R :=
+  match a, b with
+  | 0%nat, 0%nat => 1 / E1 | 1%nat, 1%nat => 1 / E2 | 2%nat, 2%nat => 1 / E3
+  | 0%nat, 1%nat | 1%nat, 0%nat => - n12 / E1
+  | 0%nat, 2%nat | 2%nat, 0%nat => - n13 / E1
+  | 1%nat, 2%nat | 2%nat, 1%nat => - n23 / E2
+  | _, _ => 0
+  end.
+Definition ortho_shear (G12 G23 G13 : R) (a b : nat) : R :=
+  match a, b with
+  | 0%nat, 1%nat | 1%nat, 0%nat => G12
+  | 1%nat, 2%nat | 2%nat, 1%nat => G23
+  | 0%nat, 2%nat | 2%nat, 0%nat => G13
+  | _, _ => 0
+  end.
+Definition ortho_det (E1 E2 E3 n12 n23 n13 : R) : R :=
+  let S := ortho_compliance E1 E2 E3 n12 n23 n13 in
+  S 0%nat 0%nat * (S 1%nat 1%nat * S 2%nat 2%nat - S 1%nat 2%nat * S 2%nat 1%nat)
+  - S 0%nat 1%nat * (S 1%nat 0%nat * S 2%nat 2%nat - S 1%nat 2%nat * S 2%nat 0%nat)
+  + S 0%nat 2%nat * (S 1%nat 0%nat * S 2%nat 1%nat - S 1%nat 1%nat * S 2%nat 0%nat).
+(* sig (in the storage of a hypothesis with Sz components) is the stress of the strain e *)
+Definition ortho_hooke (perm : nat -> nat) (E1 E2 E3 n12 n23 n13 G12 G23 G13 : R) (e sig : list R) : Prop :=
+  let S := ortho_compliance E1 E2 E3 n12 n23 n13 in let G := ortho_shear G12 G23 G13 in
+  (forall i, (i < 3)%nat -> S (perm i) (perm 0%nat) * nthR sig 0 + S (perm i) (perm 1%nat) * nthR sig 1 + S (perm i) (perm 2%nat) * nthR sig 2 = nthR e i) /\
+  ((3 < length e)%nat -> nthR sig 3 = 2 * G (perm 0%nat) (perm 1%nat) * nthR e 3) /\
+  ((4 < length e)%nat -> nthR sig 4 = 2 * G (perm 0%nat) (perm 2%nat) * nthR e 4) /\
+  ((5 < length e)%nat -> nthR sig 5 = 2 * G (perm 1%nat) (perm 2%nat) * nthR e 5).
+(* pipe convention: identity in 3D / axisymmetrical, exchange of the axes 2 and 3 in the plane hypotheses *)
+Definition perm_id (i : nat) : nat := i.
+Definition perm_pipe_plane (i : nat) : nat := match i with 1%nat => 2%nat | 2%nat => 1%nat | _ => i end.
+
+(* Norton creep as rate equations (RungeKutta DSL):  d eel/dt = deto/dt - (dp/dt) n(sig),  dp/dt = A seq(sig)^E,  sig = Hooke eel *)
+Definition norton_rate (e deto : list R) (young nu A E dt : R) : list R :=
+  let sg := hooke (lame_lambda young nu) (lame_mu young nu) e in
+  let r := A * Rpower (vmises sg) E in
+  vsub (vscal (/ dt) deto) (vscal r (normal sg)) ++ [r].
